@@ -1,5 +1,5 @@
 ENGINES = [
-    dict(name="pyvc", path="pyvc/", serves_properties=["C17", "C14", "C02", "C01", "C10", "C11", "C16", "C19", "C03", "C04", "C05", "C12", "C13", "C20", "C06"],
+    dict(name="pyvc", path="pyvc/", serves_properties=["C17", "C14", "C02", "C01", "C10", "C11", "C16", "C19", "C03", "C04", "C05", "C12", "C13", "C20", "C06", "C18"],
          kind_free_text="E1: AST -> verification-condition generator / symbolic executor over the real source text of /repo, sidecar contracts, z3 (cvc5 fall-back)"),
     dict(name="tabinv", path="tabinv/", serves_properties=["C01", "C10", "C11"],
          kind_free_text="E2: exact-arithmetic ground obligations on the coefficient tables dumped from the imported classes"),
@@ -118,4 +118,12 @@ CHECKS["C06"] = dict(level="proof", engine="pyvc",
     note="O(h^4) between nodes = cubic exactness (C17) + Peano kernel theorem (A8); Richardson wrappers only natively; events in C07-C09; A1",
     technique="data-structure invariant over an abstract view (parallel z3 arrays), contracts at call sites, LinComb domain for the slope clause",
     design_ref="DESIGN.md section 4 C06")
+CHECKS["C18"] = dict(level="proof", engine="pyvc",
+    text="The real solve_ivp is executed symbolically with the OdeSystem replaced by the contracts proved in C03 (integrate) and C19 (__getitem__): args bound to parameters in order through nested DiffRHS wrappers, "
+         "first step clipped into [min_step, max_step], settings/method/events/callbacks passed through, clipping callback keeps |dt| in range and its sign, without t_eval (system.t, states with the time axis moved last), "
+         "with t_eval (1..3 symbolic times, any order, repeats, both span directions) exactly the requested times in integration order to tol_epsilon, ValueError only for times outside the span, result fields are the system's own; "
+         "max_step chain: integrate() with the clipping callback's contract never records a step longer than max_step (loop invariant on the real integrate).",
+    note="OdeSystem.__init__ represented by its contract; shapes for n-d states, dtypes and scipy parity are a bounded native family; getfullargspec / sort / transpose assumed (A3); A1",
+    technique="modular verification of the facade against callee contracts + loop invariant for the max_step chain",
+    design_ref="DESIGN.md section 4 C18")
 NOT_APPLICABLE = {}
